@@ -209,22 +209,23 @@ Qed.
 (* ------------------------------------------------------------------ exact square roots, segment length *)
 Lemma qsqrt_spec : forall q r, qsqrt q = Some r -> (r * r == q)%Q /\ (0 <= r)%Q.
 Proof.
-  unfold qsqrt. intros q r H.
-  destruct ((0 <=? Qnum (Qred q)) && (Z.sqrt (Qnum (Qred q)) * Z.sqrt (Qnum (Qred q)) =? Qnum (Qred q))
-            && (Z.sqrt (Z.pos (Qden (Qred q))) * Z.sqrt (Z.pos (Qden (Qred q))) =? Z.pos (Qden (Qred q)))) eqn:E;
+  unfold qsqrt. intros q r H. pose proof (Qred_correct q) as Hred.
+  destruct (Qred q) as [n d]. cbn [Qnum Qden] in H.
+  destruct ((0 <=? n) && (Z.sqrt n * Z.sqrt n =? n) && (Z.sqrt (Z.pos d) * Z.sqrt (Z.pos d) =? Z.pos d)) eqn:E;
     [|discriminate].
   inversion H; subst r; clear H.
   apply andb_prop in E. destruct E as [E E3]. apply andb_prop in E. destruct E as [E1 E2].
   apply Z.leb_le in E1. apply Z.eqb_eq in E2. apply Z.eqb_eq in E3.
-  set (a := Z.sqrt (Qnum (Qred q))) in *. set (b := Z.sqrt (Z.pos (Qden (Qred q)))) in *.
+  set (a := Z.sqrt n) in *. set (b := Z.sqrt (Z.pos d)) in *.
   assert (Hb : 0 < b).
   { assert (0 <= b) by apply Z.sqrt_nonneg. destruct (Z.eq_dec b 0) as [Hz|]; [|lia].
     rewrite Hz in E3. simpl in E3. lia. }
   assert (Ha : 0 <= a) by apply Z.sqrt_nonneg.
   split.
-  - rewrite <- (Qred_correct q) at 2. unfold Qeq, Qmult. simpl.
-    rewrite Pos2Z.inj_mul. rewrite Z2Pos.id by lia. rewrite E2, E3. reflexivity.
-  - unfold Qle. simpl. lia.
+  - rewrite <- Hred. unfold Qeq, Qmult. cbn [Qnum Qden].
+    rewrite Pos2Z.inj_mul. change (Z.pos (Pos.sqrt d)) with (Z.sqrt (Z.pos d)). fold b.
+    rewrite E2, E3. reflexivity.
+  - unfold Qle. cbn [Qnum Qden]. lia.
 Qed.
 
 Example qsqrt_example : qsqrt (25 # 4) = Some (5 # 2)%Q.
@@ -236,16 +237,13 @@ Theorem seg_length_spec : forall c s l, wf c -> root_has_prox c -> In s c ->
   exists p, ActProx c (sid s) p /\ (l * l == sqdist p (sdist s))%Q /\ (0 <= l)%Q.
 Proof.
   intros c s l Hwf Hroot Hs H. unfold seg_length in H.
-  rewrite (get_segment_nodup c s (wf_nodup c Hwf) Hs) in H. simpl in H.
+  rewrite (get_segment_nodup c s (wf_nodup c Hwf) Hs) in H. cbn [bind] in H.
   destruct (actual_prox_spec c s Hwf Hroot Hs) as [p [Hp Hap]].
-  assert (Hp' : (match sprox s with Some p0 => Ok p0 | None => actual_prox (fuel_of c) c (sid s) end) = Ok p
-                \/ exists p0, sprox s = Some p0).
-  { destruct (sprox s); [right; eauto|left; auto]. }
-  destruct Hp' as [Hp'|[p0 Hp0]].
-  - rewrite Hp' in H. simpl in H. destruct (qsqrt (sqdist p (sdist s))) as [r|] eqn:E; [|discriminate].
-    inversion H; subst r. exists p. split; auto. now apply qsqrt_spec.
-  - rewrite Hp0 in H. simpl in H. destruct (qsqrt (sqdist p0 (sdist s))) as [r|] eqn:E; [|discriminate].
+  destruct (sprox s) as [p0|] eqn:Ep.
+  - cbn [bind] in H. destruct (qsqrt (sqdist p0 (sdist s))) as [r|] eqn:E; [|discriminate].
     inversion H; subst r. exists p0. split; [now apply AP_own|]. now apply qsqrt_spec.
+  - rewrite Hp in H. cbn [bind] in H. destruct (qsqrt (sqdist p (sdist s))) as [r|] eqn:E; [|discriminate].
+    inversion H; subst r. exists p. split; auto. now apply qsqrt_spec.
 Qed.
 
 (* ------------------------------------------------------------------ distance from the root *)
